@@ -1,5 +1,5 @@
 CONSTANT Limit = 100
-CONSTANT Depth = 2
+CONSTANT Depth = 3
 CONSTANT Fuel = 60
 CONSTANT WithRenum = TRUE
 INIT Init
